@@ -101,13 +101,15 @@ fn parse_uri(buf: &[u8]) -> Result<(RequestUri<'_>, &[u8]), HttpParsingError> {
     // step 2: advance to start of path (absolute- or authority-form)
     let mut i = 0;
     if !origin_form {
+        let mut scheme_seen = false;
         // scan for the first slash that is NOT part of "://"
         while i < buf.len() {
             let b = buf[i];
 
             match b {
-                // skip the scheme separator "://"
-                b':' if i + 2 < buf.len() && &buf[i..i + 3] == b"://" => {
+                // skip the scheme separator "://" (only the first one can be it)
+                b':' if !scheme_seen && i + 2 < buf.len() && &buf[i..i + 3] == b"://" => {
+                    scheme_seen = true;
                     i += 3;
                     continue;
                 }
